@@ -419,6 +419,10 @@ def _oracle(cfg, data, src, out, want_reject, label):
         pre_sp, pre_fault = int((gd or {}).get("sp", -1)), int((gd or {}).get("fault", -2))
         plain_overflow = plain_signal and rp.sig == signal.SIGSEGV and pre_sp > 0 and abs(pre_fault - pre_sp) < (1 << 20)
         oa, ka, ra = _one_flavor(cfg, "asan", src, out, cpu, big, 64 if plain_overflow else 1024)
+        if oa == "budget-cpu" and plain_signal:
+            # the plain build crashed on this input (reported below); how long the sanitizer build takes to get to the
+            # same point is not a second finding
+            oa, ka = "skipped-after-plain-crash", None
         if oa == "budget-cpu":
             r2 = _run_flavor(cfg, "asan", src, out, cpu)
             if r2.cpu_exceeded:
@@ -573,6 +577,12 @@ def make_input(cfg, case):
             data = f.read()
         extra = None
         wdir = os.path.dirname(case[1])
+        if case[1].endswith(".gen"):
+            # generated witness: "import_chain <n>" (thousands of sibling modules are not stored)
+            w = data.split()
+            if len(w) >= 2 and w[0] == b"import_chain":
+                extra = ms.import_chain(int(w[1]))
+                return "witness", extra["i.nano"], False, "", extra
         if os.path.basename(case[1]) == "i.nano":
             # multi-file witness: a directory whose main file is i.nano; the other files are its siblings
             extra = {}
@@ -676,7 +686,12 @@ def _plan(ctx, seeds, limit):
     # systematic families (production x context): the depths around the limit and the stack-exhausting ones
     fam = sorted(set([limit - 1, limit, limit + 1, 2 * limit, 10000, 40000, 100000] + ([] if ctx.quick() else [10, 100, 5000])))
     for g in sorted(ms.DEPTH_GENERATORS):
-        for d in (fam if ":" in g else depths):
+        ds = fam if ":" in g else depths
+        if ctx.quick() and g.startswith("expr:infix_chain@"):
+            continue      # known diagnostic flood (10-40 s of CPU per case); the plain infix_chain generator stays
+        if ctx.quick() and not g.startswith("type:") and ":" in g:
+            ds = [d for d in ds if d != 40000]
+        for d in ds:
             cases.append(("depth", g, d, limit))
     for d in (10, 100, limit - 1, limit, limit + 1, 2 * limit, 10000):
         cases.append(("importchain", d))
@@ -952,6 +967,9 @@ def replay(ctx, path):
         elif not os.path.isdir(path) and os.path.basename(p) == "i.nano":
             extra = {n: open(os.path.join(sib, n), "rb").read() for n in sorted(os.listdir(sib))
                      if n != "i.nano" and os.path.isfile(os.path.join(sib, n))}
+        if p.endswith(".gen") and data.split()[:1] == [b"import_chain"]:
+            extra = ms.import_chain(int(data.split()[1]))
+            data = extra["i.nano"]
         rec = oracle(cfg, data, extra=extra)
         print("asan build: %s   plain build: %s   first diagnostic: %s" % (rec["asan"], rec["plain"], rec["diag"]))
         for k, t in rec["events"]:
